@@ -7,6 +7,17 @@ the queue is drained FIFO):
   signal  SignalStage(g, persistent) vs RunTask(g) whose task answers RUNNING-with-context or SUCCEEDED-with-context:
           the signal handler appends to `_buffered_signals`, `_process_result_safely` merges the task's context; both write g
   cancel  CancelStage(i) vs CompleteTask(i.t) (1 or 2 tasks): one sets the stage + open tasks CANCELED, the other records the task result
+  cancelrun  CancelStage(i) vs RunTask(i.t) whose task answers SUCCEEDED / RUNNING-with-context / TERMINAL: the cancel commits between the
+          RunTask handler's reload of the stage (`_process_result_safely`) and its result commit (`execute_atomic`)
+  startjoin  StartStage(j) vs CompleteStage(u_next) on a join stage j with 3 upstreams whose tracking list ALREADY names the upstreams
+          completed in the prefix (DISCRIMINATOR / N_OF_M 1: u1; N_OF_M 2: u1, u2): the sibling's `_update_join_tracking` UPDATES the
+          existing `_completed_branches` key between StartStage's claim commit and its plan commit (merge-on-retry of the plan commit)
+  startsignal  StartStage(g) vs a SECOND persistent SignalStage(g), one persistent signal already buffered in the prefix: the signal handler
+          UPDATES the existing `_buffered_signals` key inside StartStage's claim -> plan window
+
+The same schedules serve two properties (`start(ctx, prop)`): C07 applies the lost-update oracles below, C06 applies its own oracle to
+the durable status audit of every schedule (`_mb_audit`: every committed status change of a stage / task / workflow row must be a
+legal transition of `stabilize.models.status.can_transition`; completed statuses have no successor).
 
 Oracles are implementation-only (history of the stage / task rows recorded by SQL triggers, rolled-back writes never appear):
 nothing a committed write put into the contended row's context disappears again, every committed write of the row bumps the
@@ -30,7 +41,8 @@ from typing import Any
 
 SUITE = "engine-pairs-cas"
 SIG = {"join": "engine-pair:lost-update:join-tracking", "signal": "engine-pair:lost-update:signal-vs-result",
-       "cancel": "engine-pair:reverted:cancel-vs-complete"}
+       "cancel": "engine-pair:reverted:cancel-vs-complete", "cancelrun": "engine-pair:reverted:cancel-vs-result",
+       "startjoin": "engine-pair:lost-update:start-vs-join-tracking", "startsignal": "engine-pair:lost-update:start-vs-signal"}
 SIG_VERSION = "engine-pair:version-not-bumped-by-one"
 SIG_SEQ = "engine-pair:outcome-differs-from-both-sequential-orders"
 SIG_STUCK = "engine-pair:no-quiescence"
@@ -40,6 +52,11 @@ COMPLETE = {"SUCCEEDED", "TERMINAL", "CANCELED", "STOPPED", "FAILED_CONTINUE", "
 RULE = ("engine pairs (Mode B, exhaustive per scenario): join = fan-in u1..un -> j -> d with every CompleteStage(u*) pending, join type DISCRIMINATOR / "
         "N_OF_M (threshold 1, 2), n in {2, 3}; signal = g -> d with RunTask(g) pending and one persistent SignalStage(g) pushed, the task answering "
         "RUNNING-with-context or SUCCEEDED-with-context; cancel = i -> d with CompleteTask(i.t1) pending (1 or 2 tasks) and a CancelStage(i) pushed; "
+        "cancelrun = i -> d with RunTask(i.t) pending (task answering SUCCEEDED / RUNNING-with-context / TERMINAL) and a CancelStage(i) pushed; "
+        "startjoin (states WITH HISTORY) = fan-in u1..u3 -> j -> d, join DISCRIMINATOR / N_OF_M (threshold 1, 2), the first max(1, threshold) CompleteStage(u*) "
+        "delivered in the prefix so that j's `_completed_branches` already exists and StartStage(j) is pending and ready, raced StartStage(j) x "
+        "CompleteStage(next upstream) (thorough: the remaining CompleteStage nested as C); startsignal = g -> d with StartStage(g) pending, one persistent "
+        "signal already buffered in the prefix, raced StartStage(g) x a second persistent SignalStage(g); "
         "worker A handles one message and worker B the other one atomically at EVERY legal DB-call point of A (before A's first read, every read / CAS "
         "window, after A) in BOTH directions; for three upstreams additionally C = the third CompleteStage at every legal point of B inside A; then FIFO "
         "drain; a schedule is distinct by (scenario, direction, injection point[s]) and non-trivial when B really ran inside A")
@@ -50,7 +67,12 @@ ASSUMPTIONS = ["engine pairs: Mode B explores the interleavings SQLite's single-
 TRUSTED_BASE = ["engine pairs: the mapping store-level call log -> CasRow op list (harness/engine_pairs.py `cas_line`): a `SELECT * FROM stage_executions WHERE id` "
                 "of the contended row = `read`, a version-checked UPDATE of it = `mod` (the worker's own modification, entry = worker number) + `write` whose "
                 "outcome is the UPDATE's rowcount; reads of the row through other statements are not mapped, so a handler that writes content taken from such "
-                "a read shows up as a correspondence failure, not as a model step"]
+                "a read shows up as a correspondence failure, not as a model step",
+                "engine pairs, start family: StartStage's two commits (claim with expected_phase, plan) are two `mod`+`write` pairs of one worker; its "
+                "merge-on-retry (re-read after a lost plan CAS, merge of the foreign context, retry on the fresh version) is represented by the model's "
+                "`read` + `mod` + `write` (the object is REPLACED by the fresh row and the worker's own modification re-applied), which is what a correct "
+                "merge must be equivalent to on the keys another worker writes; the observed payload carries one entry per successful write of a worker "
+                "whose contribution (branch in `_completed_branches`, second signal in `_buffered_signals`) is in the final context"]
 
 
 # --------------------------------------------------------------------------------------
@@ -59,11 +81,11 @@ TRUSTED_BASE = ["engine pairs: the mapping store-level call log -> CasRow op lis
 
 @dataclass(frozen=True)
 class Scn:
-    kind: str                    # join | signal | cancel
+    kind: str                    # join | signal | cancel | cancelrun | startjoin | startsignal
     n_up: int = 2                # join: upstream branches
     join: str = "DISCRIMINATOR"  # join: join type
     th: int = 0                  # join: threshold (N_OF_M)
-    res: str = "running"         # signal: task answer on its first execution: running | success (both with context)
+    res: str = "running"         # signal / cancelrun: task answer on its first execution: running | success (both with context) | terminal
     nt: int = 1                  # cancel: tasks of the stage
 
     def key(self) -> str:
@@ -71,22 +93,38 @@ class Scn:
             return f"join-{self.join}{self.th}-n{self.n_up}"
         if self.kind == "signal":
             return f"signal-{self.res}"
+        if self.kind == "cancelrun":
+            return f"cancelrun-{self.res}"
+        if self.kind == "startjoin":
+            return f"start-{self.join}{self.th}"
+        if self.kind == "startsignal":
+            return "start-signal"
         return f"cancel-t{self.nt}"
 
     def contended(self) -> str:
-        return {"join": "j", "signal": "g", "cancel": "i"}[self.kind]
+        return {"join": "j", "signal": "g", "cancel": "i", "cancelrun": "i", "startjoin": "j", "startsignal": "g"}[self.kind]
+
+    def prefix_ups(self) -> int:
+        """startjoin: upstream completions delivered before the race (the join is ready and its tracking key exists)"""
+        return max(1, self.th)
 
 
 def scn_from(d: dict) -> Scn:
     return Scn(**{k: d[k] for k in ("kind", "n_up", "join", "th", "res", "nt") if k in d})
 
 
-def scenarios(thorough: bool) -> list[Scn]:
+def scenarios(thorough: bool, prop: str = "C07") -> list[Scn]:
     s = []
     for join, th in (("DISCRIMINATOR", 0), ("N_OF_M", 1), ("N_OF_M", 2)):
         for n in (2, 3):
+            if prop == "C06" and (n == 3 or (not thorough and th == 1)):
+                continue      # C06: the status audit of the join pairs is the least interesting; no nested family
             s.append(Scn("join", n_up=n, join=join, th=th))
     s += [Scn("signal", res="running"), Scn("signal", res="success"), Scn("cancel", nt=1), Scn("cancel", nt=2)]
+    s += [Scn("cancelrun", res="success"), Scn("cancelrun", res="running"), Scn("cancelrun", res="terminal")]
+    if prop != "C06":
+        s += [Scn("startjoin", n_up=3, join="DISCRIMINATOR", th=0), Scn("startjoin", n_up=3, join="N_OF_M", th=1),
+              Scn("startjoin", n_up=3, join="N_OF_M", th=2), Scn("startsignal")]
     return s
 
 
@@ -102,6 +140,16 @@ def directions(scn: Scn, thorough: bool) -> list[dict]:
         return out
     if scn.kind == "signal":
         return [{"a": "SG(g)", "b": "RT(g)"}, {"a": "RT(g)", "b": "SG(g)"}]
+    if scn.kind == "cancelrun":
+        return [{"a": "RT(i)", "b": "XS(i)"}, {"a": "XS(i)", "b": "RT(i)"}]
+    if scn.kind == "startjoin":
+        nxt = f"CS(u{scn.prefix_ups() + 1})"
+        out = [{"a": "SS(j)", "b": nxt}, {"a": nxt, "b": "SS(j)"}]
+        if thorough and scn.prefix_ups() + 2 <= scn.n_up:
+            out.append({"a": "SS(j)", "b": nxt, "c": f"CS(u{scn.prefix_ups() + 2})"})
+        return out
+    if scn.kind == "startsignal":
+        return [{"a": "SS(g)", "b": "SG(g)"}, {"a": "SG(g)", "b": "SS(g)"}]
     return [{"a": "XS(i)", "b": "CT(i)SUCC"}, {"a": "CT(i)SUCC", "b": "XS(i)"}]
 
 
@@ -141,6 +189,8 @@ def _env_class():
         def execute(self, stage):  # noqa: ANN001
             mb.LEDGER.append((stage.ref_id, "t"))
             n = sum(1 for x in mb.LEDGER if x[0] == stage.ref_id)
+            if stage.context.get("_res") == "terminal":
+                return TaskResult.terminal("scripted terminal failure", context={"saved_by_task": "failed"})
             if stage.context.get("_res") == "running" and n == 1:
                 return TaskResult.running(context={"saved_by_task": "poll-1"})
             if stage.context.get("_res") == "running":
@@ -212,6 +262,40 @@ class Lab:
             env.push(SignalStage(execution_type=env.wf_type, execution_id=env.wf_id, stage_id=env.ids["g"], signal_name="go",
                                  signal_data={"x": 1}, persistent=True))
             want = ["RT(g)", "SG(g)"]
+        elif scn.kind == "cancelrun":
+            i = StageExecution(ref_id="i", type="noop", name="i", context={"_res": scn.res},
+                               tasks=[TaskExecution.create(name="t", implementing_class="c07ctx", stage_start=True, stage_end=True)],
+                               requisite_stage_ref_ids=set())
+            env.create_workflow([i, mb.stage("d", {"i"})])
+            env.start()
+            env.drain(max_steps=20, hold=lambda c: c.startswith("RT(i)"))
+            env.push(CancelStage(execution_type=env.wf_type, execution_id=env.wf_id, stage_id=env.ids["i"]))
+            want = ["RT(i)", "XS(i)"]
+        elif scn.kind == "startjoin":
+            mb.build_fanin(env, scn.n_up, scn.join, scn.th)
+            env.start()
+            env.drain(max_steps=40, hold=lambda c: c.startswith("CS(u"))
+            for k in range(scn.prefix_ups()):
+                env.deliver(env.find(f"CS(u{k + 1})")[0])
+            want = [f"CS(u{k + 1})" for k in range(scn.prefix_ups(), scn.n_up)] + ["SS(j)"] * scn.prefix_ups()
+            done = env.ctx_of("j").get("_completed_branches") or []
+            if done != [f"u{k + 1}" for k in range(scn.prefix_ups())] or env.stage_row("j")["status"] != "NOT_STARTED":
+                raise RuntimeError(f"base state of {scn.key()} has no history: {env.state_line()}")
+        elif scn.kind == "startsignal":
+            env.create_workflow([mb.stage("g"), mb.stage("d", {"g"})])
+            env.start()
+            env.drain(max_steps=20, hold=lambda c: c.startswith("SS(g)"))
+
+            def sig(n: int):
+                return SignalStage(execution_type=env.wf_type, execution_id=env.wf_id, stage_id=env.ids["g"], signal_name=f"s{n}",
+                                   signal_data={"n": n}, persistent=True)
+
+            env.push(sig(1))
+            env.deliver(env.find("SG(g)")[0])
+            env.push(sig(2))
+            want = ["SG(g)", "SS(g)"]
+            if [x.get("signal_name") for x in env.ctx_of("g").get("_buffered_signals") or []] != ["s1"] or env.stage_row("g")["status"] != "NOT_STARTED":
+                raise RuntimeError(f"base state of {scn.key()} has no history: {env.state_line()}")
         else:
             tasks = [TaskExecution.create(name=f"t{k + 1}", implementing_class="ledger", stage_start=(k == 0), stage_end=(k == scn.nt - 1))
                      for k in range(scn.nt)]
@@ -227,7 +311,7 @@ class Lab:
         r = scn.contended()
         row = env.stage_row(r)
         meta = {"ids": dict(env.ids), "refs": dict(env.refs), "wf_id": env.wf_id, "wf_type": env.wf_type, "v0": row["version"],
-                "st0": row["status"], "tasks0": env.tasks_of(r), "hist0": len(env.hist(r))}
+                "st0": row["status"], "tasks0": env.tasks_of(r), "hist0": len(env.hist(r)), "audit0": len(env.audit())}
         snap = mb.snapshot(env)
         self.env = env
         return env, snap, meta
@@ -303,7 +387,16 @@ def _present(scn: Scn, ctx: dict, workers: list[str], successful: list[int]) -> 
     """which workers' modifications the contended row's context holds (worker number + 1)"""
     out = []
     for w, code in enumerate(workers):
-        if scn.kind == "join":
+        if scn.kind in ("startjoin", "startsignal"):
+            # StartStage writes the row twice (claim, plan): one payload entry per successful write of a worker whose contribution is there
+            if code.startswith("SS("):
+                here = True
+            elif code.startswith("CS("):
+                here = code[3:-1] in (ctx.get("_completed_branches") or [])
+            else:
+                here = "s2" in [x.get("signal_name") for x in ctx.get("_buffered_signals") or []]
+            out += [w + 1] * (successful.count(w + 1) if here else 0)
+        elif scn.kind == "join":
             if code[3:-1] in (ctx.get("_completed_branches") or []):
                 out.append(w + 1)
         elif scn.kind == "signal":
@@ -340,32 +433,62 @@ def history_monitors(scn: Scn, hist: list[dict]) -> list[tuple[str, str]]:
 
 def state_monitors(scn: Scn, env, when: str) -> list[tuple[str, str]]:
     hits = []
-    if scn.kind == "join":
+    if scn.kind in ("join", "startjoin"):
         done = env.ctx_of("j").get("_completed_branches") or []
         for i in range(scn.n_up):
             u = f"u{i + 1}"
             if env.stage_row(u)["status"] in COMPLETE and u not in done:
                 hits.append((f"{when}: CompleteStage({u}) committed {u}'s completion but the join's _completed_branches is {done}: its branch record was lost",
-                             SIG["join"]))
+                             SIG[scn.kind]))
+    elif scn.kind == "startsignal":
+        got = [x.get("signal_name") for x in env.ctx_of("g").get("_buffered_signals") or []]
+        if not {"s1", "s2"} <= set(got):
+            hits.append((f"{when}: both persistent signals were handled (s1 before the race, s2 in it; nothing suspends, so none is consumed) but stage g's "
+                         f"mailbox _buffered_signals holds {got}", SIG[scn.kind]))
     elif scn.kind == "signal" and when != "after the first op":
         c = env.ctx_of("g")
         if not c.get("_buffered_signals") or "saved_by_task" not in c:
             hits.append((f"{when}: stage g's context has _buffered_signals={c.get('_buffered_signals')} and saved_by_task="
                          f"{c.get('saved_by_task', '<absent>')}: both the buffered persistent signal and the task's saved context must be there", SIG["signal"]))
-    elif scn.kind == "cancel":
+    elif scn.kind in ("cancel", "cancelrun"):
         au = env.audit()
         for kind, ent, old, new in au:
             if kind == "S" and ent == "i" and old == "CANCELED":
-                hits.append((f"{when}: stage i left CANCELED ({old} -> {new})", SIG["cancel"]))
+                hits.append((f"{when}: stage i left CANCELED ({old} -> {new})", SIG[scn.kind]))
             if kind == "T" and old in COMPLETE:
-                hits.append((f"{when}: a task of stage i left its recorded status ({old} -> {new})", SIG["cancel"]))
+                hits.append((f"{when}: a task of stage i left its recorded status ({old} -> {new})", SIG[scn.kind]))
         if when == "after the drain":
             row = env.stage_row("i")
             ts = [s for _, s in env.tasks_of("i")]
-            if row["status"] != "CANCELED":
-                hits.append((f"{when}: CancelStage(i) was handled but stage i is {row['status']}", SIG["cancel"]))
+            if scn.kind == "cancel" and row["status"] != "CANCELED":
+                hits.append((f"{when}: CancelStage(i) was handled but stage i is {row['status']}", SIG[scn.kind]))
+            if scn.kind == "cancelrun" and row["status"] not in COMPLETE:
+                hits.append((f"{when}: CancelStage(i) and the task result were handled but stage i is {row['status']}", SIG[scn.kind]))
             if any(s in ("RUNNING", "NOT_STARTED") for s in ts):
-                hits.append((f"{when}: stage i is {row['status']} with tasks {ts}: a task is left RUNNING / NOT_STARTED", SIG["cancel"]))
+                hits.append((f"{when}: stage i is {row['status']} with tasks {ts}: a task is left RUNNING / NOT_STARTED", SIG[scn.kind]))
+    return hits
+
+
+def legality_monitors(scn: Scn, env, audit0: int) -> list[tuple[str, str]]:
+    """C06's oracle on the durable status audit of one schedule (race + drain): every committed status change of a stage / task /
+    workflow row is a legal transition of the REAL table; a completed status has no successor.  (The only exemption of the
+    message-level monitor, a re-arm to NOT_STARTED by a JumpToStage, cannot occur: the scenarios contain no jump.)"""
+    from stabilize.models.status import WorkflowStatus, can_transition
+
+    hits = []
+    pair = scn.key()
+    tasks = {}
+    for ref, sid in env.ids.items():
+        for k, r in enumerate(env.q("SELECT id FROM task_executions WHERE stage_id=? ORDER BY id", sid)):
+            tasks[r["id"]] = f"{ref}.t{k + 1}"
+    for kind, ent, old, new in env.audit()[audit0:]:
+        if can_transition(WorkflowStatus[old], WorkflowStatus[new]):
+            continue
+        who = tasks.get(ent, ent) if kind == "T" else ent
+        cls = "completed-left" if old in COMPLETE else "illegal"
+        hits.append((f"durable status change of {'stage' if kind == 'S' else 'task' if kind == 'T' else 'workflow'} {who}: {old} -> {new} is not in the "
+                     f"transition table" + (" (a completed status was left)" if cls == "completed-left" else ""),
+                     f"engine-pair:{cls}:{kind}:{old}>{new}:{pair}"))
     return hits
 
 
@@ -422,6 +545,8 @@ def run_sched(lab: Lab, scn: Scn, snap, meta, d: dict, at: int, nest_at: int | N
     res["final_abs"] = final_abstract(scn, env)
     hist = env.hist(scn.contended())[meta["hist0"]:]
     res["history"] = [f"v{h['oldv']}->v{h['newv']} {h['oldst']}->{h['newst']} ctx {h['newctx']}" for h in hist]
+    res["audit"] = [f"{k}:{ent if k != 'T' else 'task'}:{old}>{new}" for k, ent, old, new in env.audit()[meta["audit0"]:]]
+    res["c06"] = legality_monitors(scn, env, meta["audit0"])
     hits = history_monitors(scn, hist) + race_hits + state_monitors(scn, env, "after the drain")
     if reason != "empty":
         hits.append((f"the queue did not drain after the pair: {reason} after {steps} deliveries; {env.state_line()}", SIG_STUCK))
@@ -486,9 +611,9 @@ def _pool(n: int):
     return mp.get_context("spawn").Pool(n)
 
 
-def plan_units(thorough: bool) -> list[dict]:
+def plan_units(thorough: bool, prop: str = "C07") -> list[dict]:
     units = []
-    for scn in scenarios(thorough):
+    for scn in scenarios(thorough, prop):
         for d in directions(scn, thorough):
             if "c" in d:
                 shards = 6 if thorough else 4
@@ -500,10 +625,10 @@ def plan_units(thorough: bool) -> list[dict]:
     return units
 
 
-def replay_units() -> list[dict]:
+def replay_units(prop: str = "C07") -> list[dict]:
     from harness import core
 
-    d = core.VERIF / "replays" / "C07"
+    d = core.VERIF / "replays" / prop
     out = []
     for f in sorted(d.glob("*.json")) if d.is_dir() else []:
         body = json.loads(f.read_text())
@@ -513,12 +638,14 @@ def replay_units() -> list[dict]:
     return out
 
 
-def start(ctx):
+def start(ctx, prop: str = "C07"):
     """launch the worker processes; the caller runs its other suites meanwhile and then calls finish()"""
     os.environ.setdefault("STABILIZE_MAX_STAGE_WAIT_RETRIES", "2")
-    units = replay_units() + plan_units(ctx.thorough)
+    units = replay_units(prop) + plan_units(ctx.thorough, prop)
+    # the slow units first (RunTask as A: execute_atomic's inner retry really sleeps on every conflict)
+    units.sort(key=lambda u: 0 if ("replay" not in u and u["dir"]["a"].startswith("RT(")) else 1)
     pool = _pool(min(12, os.cpu_count() or 4))
-    return {"pool": pool, "units": units, "async": pool.map_async(unit, units, chunksize=1), "t0": time.time()}
+    return {"pool": pool, "units": units, "async": pool.map_async(unit, units, chunksize=1), "t0": time.time(), "prop": prop}
 
 
 def finish(ctx, h) -> None:
@@ -527,21 +654,22 @@ def finish(ctx, h) -> None:
     finally:
         h["pool"].terminate()
     units = h["units"]
+    prop = h.get("prop", "C07")
     for u, r in zip(units, results):
         if "replay" in u:
             ctx.count({"enginepair-replay": u["file"]}, nontrivial=True)
             ctx.tag("pair:replay")
-            for what, sig in r["violations"]:
+            for what, sig in (r.get("c06", []) if prop == "C06" else r["violations"]):
                 ctx.violation(f"{what} (regression corpus {u['file']})", sig, {"enginepair": r["sched"], "trace": r["trace"], "replay_file": u["file"]})
-    digest(ctx, [r for u, r in zip(units, results) if "replay" not in u])
+    digest(ctx, [r for u, r in zip(units, results) if "replay" not in u], prop)
     ep = ctx.extra.setdefault("engine_pairs", {})
     ep["units"] = len(units)
-    ep["scenarios"] = [s.key() for s in scenarios(ctx.thorough)]
+    ep["scenarios"] = [s.key() for s in scenarios(ctx.thorough, prop)]
     ep["wall_s"] = round(time.time() - h["t0"], 1)
 
 
 def run_for(ctx, prop: str) -> None:
-    finish(ctx, start(ctx))
+    finish(ctx, start(ctx, prop))
 
 
 def _describe(sched: dict) -> str:
@@ -552,7 +680,7 @@ def _describe(sched: dict) -> str:
     return s
 
 
-def digest(ctx, results: list[dict]) -> None:
+def digest(ctx, results: list[dict], prop: str = "C07") -> None:
     ep = ctx.extra.setdefault("engine_pairs", {"points": 0, "illegal_points": 0, "schedules": 0, "blocked": 0, "compared": 0, "inside": 0})
     allsched = []
     for res in results:
@@ -586,8 +714,15 @@ def digest(ctx, results: list[dict]) -> None:
             ctx.tag("pair:B-inside-A")
         if "conflict" in (r["impl"] or "").split("#")[0]:
             ctx.tag(f"pair:{scn.kind}:cas-conflict-then-retry")
-        replay_obj = {"enginepair": sched, "trace": r["trace"], "history_of_contended_row": r.get("history"), "post_race": r.get("post_race"),
-                      "final": r.get("final"), "cas": {"request": r["line"], "observed": r["impl"]}}
+        replay_obj = {"enginepair": sched, "trace": r["trace"], "history_of_contended_row": r.get("history"), "status_audit": r.get("audit"),
+                      "post_race": r.get("post_race"), "final": r.get("final"), "cas": {"request": r["line"], "observed": r["impl"]}}
+        if prop == "C06":
+            ctx.tag(*(f"pair:audit:{a.split(':')[0]}:{a.split(':')[-1]}" for a in r.get("audit", [])))
+            for what, sig in r.get("c06", []):
+                ctx.violation(f"{what}; status audit of the schedule {r.get('audit')}; schedule {_describe(sched)}", sig, replay_obj)
+            if r["inside"] and len([x for x in ctx.samples if "enginepair" in x]) < 2:
+                ctx.sample({"enginepair": sched, "status_audit": r.get("audit")})
+            continue
         for what, sig in r["violations"]:
             ctx.violation(f"{what}; schedule {_describe(sched)}", sig, replay_obj)
         if "nest_at" not in sched and 0 < sched["at"] < r["a_ncalls"]:
@@ -631,7 +766,7 @@ def replay_sched(sched: dict) -> dict:
         lab.close()
 
 
-def replay(ctx, body) -> int:
+def replay(ctx, body, prop: str = "C07") -> int:
     rp = body.get("replay") or body
     if not (isinstance(rp, dict) and "enginepair" in rp):
         print("replay: body has neither `ops`, `torn` nor `enginepair`")
@@ -656,8 +791,10 @@ def replay(ctx, body) -> int:
     out = ctx.lean([r["line"]]) if r.get("line") else None
     if out:
         print("  model                        :", out[0], "(agrees)" if out[0] == r["impl"] else "(DIFFERS)")
-    for what, sig in r["violations"]:
+    print("  durable status changes (race + drain), in commit order:", " ".join(r.get("audit", [])))
+    hits = r.get("c06", []) if prop == "C06" else r["violations"]
+    for what, sig in hits:
         print(f"PROPERTY FAILS: {what}  [{sig}]")
-    if not r["violations"]:
+    if not hits:
         print("replay: property held on this input")
-    return 1 if r["violations"] else 0
+    return 1 if hits else 0
